@@ -19,24 +19,29 @@ package handlers
 
 //@ func (a *AuthenticateStart) Handle(response tq.Response, request tq.Request)
 //@   implements tq.Handler.Handle
+//@   taints[C18] request.Body 1
 //@   requires a != nil && a.loggerProvider != nil && a.configProvider != nil && a.recorderWriter != nil
 
 //@ func (a *AuthenticateASCII) Handle(response tq.Response, request tq.Request)
 //@   implements tq.Handler.Handle
+//@   taints[C18] request.Body 1
 //@   requires a != nil && a.loggerProvider != nil && a.configProvider != nil && a.recorderWriter != nil
 //@   modifies a.username
 
 //@ func (a *AuthenticateASCII) getUsername(response tq.Response, request tq.Request)
 //@   implements tq.Handler.Handle
+//@   taints[C18] request.Body 1
 //@   requires a != nil && a.loggerProvider != nil && a.configProvider != nil && a.recorderWriter != nil
 //@   modifies a.username
 
 //@ func (a *AuthenticateASCII) getPassword(response tq.Response, request tq.Request)
 //@   implements tq.Handler.Handle
+//@   taints[C18] request.Body 2
 //@   requires a != nil && a.loggerProvider != nil && a.configProvider != nil && a.recorderWriter != nil
 
 //@ func (a *AuthenticatePAP) Handle(response tq.Response, request tq.Request)
 //@   implements tq.Handler.Handle
+//@   taints[C18] request.Body 1
 //@   requires a != nil && a.loggerProvider != nil && a.configProvider != nil && a.recorderWriter != nil
 
 //@ func (a *AuthorizeRequest) Handle(response tq.Response, request tq.Request)
@@ -52,3 +57,25 @@ package handlers
 //@ func (l *ResponseLogger) Handle(response tq.Response, request tq.Request)
 //@   implements tq.Handler.Handle
 //@   requires l != nil && l.next != nil
+//@   taints[C18] request.Body 3
+
+// C18: what the handlers hand to the logger. Labels: 1 = START whose data field is the
+// password (PAP), 2 = CONTINUE whose user message is the password (ASCII GETPASS answer).
+// RecordCtx retains the request fields named by keys; those must not be secret-bearing
+// fields of the request (same table as tq.Request.Fields).
+//@ interface cmds/server/handlers.recorderWriter.RecordCtx(w, request, keys)
+//@   requires[C18] request != nil
+//@   requires[C18] taintkind(request.Body, 1) ==> nolit(keys, "data")
+//@   requires[C18] taintkind(request.Body, 2) ==> nolit(keys, "user", "port", "rem-addr", "data", "user-msg")
+
+//@ func (cl *ctxLogger) RecordCtx(request *tq.Request, keys ...tq.ContextKey)
+//@   implements cmds/server/handlers.recorderWriter.RecordCtx
+//@   requires cl != nil && cl.loggerProvider != nil
+//@   taints[C18] request.Body 3
+//@   modifies cl.ctx
+
+// The reply packets a ResponseLogger records are built by the handlers from untainted
+// values (Response.Reply requires it); p carries no label here.
+//@ func (l *ResponseLogger) Write(ctx context.Context, p []byte) (n int, err error)
+//@   requires l != nil && l.loggerProvider != nil
+//@   ensures[C18] untainted(err)
